@@ -131,6 +131,11 @@ def run(chk: Check, tier: str):
         c = infer.gen_case_dups(rng)
         if c:
             cases.append({"sig": c["sig"], "base": [(x["B"], x["A"]) for x in c["base"]], "qs": [(x["B"], x["A"]) for x in c["qs"]], "small": True})
+    # inheritance with exceptions over 5-6 atoms: ties on a non-empty set in the upper layer, decided below (order- and
+    # bookkeeping-sensitive); beyond the oracle, so only equality across presentations is required
+    for _ in range(24 if tier == "quick" else 400):
+        c = infer.gen_case_inherit(rng)
+        cases.append({"sig": c["sig"], "base": c["base"], "qs": c["qs"], "small": False, "wl_only": True})
     for g in rel.generated_cases(rng, n_big, atom_range=(6, 20), nq=5):
         cases.append({"sig": g["sig"], "base": g["base"], "qs": g["qs"], "small": False})
     configs = infer.configs_for(["p", "z", "w", "l", "c"], [False, True])
